@@ -497,7 +497,7 @@ func init() {
 			pool := explore.NewPool(0, "worker", "C14")
 			defer pool.Close()
 			quick := c.Tier == "quick"
-			depth, move := 4, 2
+			depth, move := 4, 3
 			if !quick {
 				depth, move = 5, 3
 			}
